@@ -4,6 +4,7 @@ import (
 	"fmt"
 	"go/ast"
 	"go/constant"
+	"go/token"
 	"go/types"
 	"reflect"
 	"strings"
@@ -11,7 +12,7 @@ import (
 
 func init() {
 	register("C13", propMeta{
-		Explanation: "Decides the soundness of the in-place metadata patch used by StoreRepository.Update: (R1) for every call patchJSONNumericField(data, K, v) the locator of key K must be structural (a JSON tokenizer) or, if it is a first-occurrence byte search, no free-text field (string, map, any, nested struct with strings) may be marshalled before K in sop.StoreInfo, otherwise store names/descriptions containing the quoted key redirect the patch onto another field; (R2) only the fields tagged by the constants fieldCount/fieldTimestamp are patched, the constants equal the JSON tags of StoreInfo.Count/Timestamp, those fields are integers, each patched value comes from the same-named field, and the fast path is taken only when NeedsMetaDataSave is false (otherwise the full struct is re-marshalled); (R3) the count written is the freshly read count plus the caller's delta, under the store lock.",
+		Explanation:  "Decides the soundness of the in-place metadata patch used by StoreRepository.Update: (R1) for every call patchJSONNumericField(data, K, v) the locator of key K must be structural (a JSON tokenizer) or, if it is a first-occurrence byte search, no free-text field (string, map, any, nested struct with strings) may be marshalled before K in sop.StoreInfo, otherwise store names/descriptions containing the quoted key redirect the patch onto another field; (R2) only the fields tagged by the constants fieldCount/fieldTimestamp are patched, the constants equal the JSON tags of StoreInfo.Count/Timestamp, those fields are integers, each patched value comes from the same-named field, and the fast path is taken only when NeedsMetaDataSave is false (otherwise the full struct is re-marshalled); (R3) the count written is the freshly read count plus the caller's delta, under the store lock.",
 		DoesNotCover: "That encoding/json round-trips every option value of StoreInfo; concurrent writers outside the L2 lock.",
 	}, runC13)
 }
@@ -223,6 +224,64 @@ func runC13(c *Ctx) {
 				offs = nil // a deferred Unlock registered before the merge covers every later exit
 			}
 			c.Offences(g, offs, r3, "Update: store lock released on every exit", mergeNode.Ast.Pos(), "Unlock (deferred) on every exit", "an exit keeps the store lock")
+			// the freshly read record is THIS store's: GetWithTTL does not preserve the order of the
+			// names it is given (cache hits first, disk loads after), so the base of stores[i] must come
+			// from a lookup of stores[i].Name alone, or be matched to the store by a Name comparison
+			as := mergeNode.Ast.(*ast.AssignStmt)
+			idxOf := func(e ast.Expr) string {
+				if sel, ok := ast.Unparen(e).(*ast.SelectorExpr); ok {
+					if ix, ok := ast.Unparen(sel.X).(*ast.IndexExpr); ok {
+						return types.ExprString(ix.Index)
+					}
+				}
+				return ""
+			}
+			widx := idxOf(as.Lhs[0])
+			defs := localDefs(fu)
+			nameFld := w.Field("sop", "StoreInfo", "Name")
+			base := ast.Unparen(as.Rhs[0]).(*ast.BinaryExpr).X
+			okOwn := false
+			detail := "the freshly read record is not traced to a GetWithTTL call"
+			var walk func(e ast.Expr, depth int)
+			walk = func(e ast.Expr, depth int) {
+				if depth > 4 {
+					return
+				}
+				ast.Inspect(e, func(n ast.Node) bool {
+					switch x := n.(type) {
+					case *ast.CallExpr:
+						if w.resolveCall(fu, x).Key == "fs.StoreRepository.GetWithTTL" {
+							names := x.Args[3:]
+							if len(x.Args) >= 4 && !x.Ellipsis.IsValid() && len(names) == 1 && fieldOfSelector(info, names[0]) == nameFld && idxOf(names[0]) == widx && widx != "" {
+								okOwn = true
+							} else {
+								detail = "the lookup `" + types.ExprString(x) + "` is not a lookup of stores[" + widx + "].Name alone"
+							}
+							return false
+						}
+					case *ast.Ident:
+						if o := info.Uses[x]; o != nil {
+							for _, d := range defs[o] {
+								walk(d, depth+1)
+							}
+						}
+					}
+					return true
+				})
+			}
+			walk(base, 0)
+			if !okOwn {
+				// alternative: an explicit Name equality between the record and the store dominates the merge
+				eq := g.condNodes(func(e ast.Expr) bool {
+					be, ok := e.(*ast.BinaryExpr)
+					return ok && (be.Op == token.EQL || be.Op == token.NEQ) && fieldOfSelector(info, be.X) == nameFld && fieldOfSelector(info, be.Y) == nameFld
+				})
+				if len(eq) > 0 && len(g.MustPrecede(nodeSet(eq), func(n *GNode) bool { return n == mergeNode })) == 0 {
+					okOwn = true
+				}
+			}
+			c.Check(okOwn, r3, "Update: the count base of stores[i] is the record looked up for stores[i].Name", mergeNode.Ast.Pos(), "single-name lookup with the same index (or a Name equality check)",
+				"the count of one store can be computed from another store's record: "+detail+" (StoreRepository.GetWithTTL returns cache hits before disk loads, not in request order)", nil)
 		}
 	}
 }
